@@ -786,6 +786,36 @@ fn judge_api(scn: &ApiScenario, obs: &ApiObservation, clean: &ApiObservation, ac
                         _ => {}
                     }
                 }
+                // recovery: once the program restarts the solver after the faulted call, the new
+                // session talks to a new process whose answers do not depend on the old one (the
+                // reference solver is seeded per spawn). Every answer given from there on must be
+                // the answer of the fault-free run: anything else was not read from the new
+                // process (stale buffered bytes, a left-over response, a flag that was not reset).
+                if v.is_none() {
+                    if let Some(r) = (j + 1..scn.ops.len()).find(|k| scn.ops[*k] == ApiOp::Restart) {
+                        acc.count("probe.api_restart_after_fault", 1);
+                        for k in r..scn.ops.len() {
+                            match (obs.calls.get(k), clean.calls.get(k)) {
+                                (Some(CallResult::Ok(a)), Some(CallResult::Ok(b))) if a != b => {
+                                    v = Some(mk(
+                                        "C15/2",
+                                        "StaleAnswerAfterRestart",
+                                        site_base.clone(),
+                                        format!(
+                                            "call #{k} ({:?}), in the session started by the restart at call #{r}, returned Ok({a}); the same call of the fault-free run returns Ok({b})",
+                                            scn.ops[k]
+                                        ),
+                                    ));
+                                    break;
+                                }
+                                (Some(CallResult::Err(..)), Some(CallResult::Ok(_))) => {
+                                    acc.count("note.api_error_after_restart", 1);
+                                }
+                                _ => {}
+                            }
+                        }
+                    }
+                }
             }
             v
         }
